@@ -110,12 +110,13 @@ Record st := {
   b_conns : list (N * conn);
   b_picks : list nat;                        (* oracle-resolved random choices of flush *)
   b_tag : N;
-  b_auto : N }.                              (* client ids assigned so far *)
+  b_auto : N;
+  b_npick : N }.                             (* number of random choices made so far *)                              (* client ids assigned so far *)
 
 Definition st_init (c : cfg) (h : hooks) (picks : list nat) : st :=
   {| b_cfg := c; b_hooks := h; b_now := 1000000000000; b_rt := 0; b_sessions := []; b_online := []; b_offline := [];
      b_wills := []; b_subs := db_init; b_ret := rdb_init; b_queues := []; b_unacks := []; b_conns := [];
-     b_picks := picks; b_tag := 1; b_auto := 0 |}.
+     b_picks := picks; b_tag := 1; b_auto := 0; b_npick := 0 |}.
 
 (* association lists keyed by socket number *)
 Fixpoint nget {V} (k : N) (l : list (N * V)) : option V :=
@@ -133,38 +134,38 @@ Inductive out :=
 Definition upd_conn (c : N) (k : conn) (s : st) : st :=
   {| b_cfg := b_cfg s; b_hooks := b_hooks s; b_now := b_now s; b_rt := b_rt s; b_sessions := b_sessions s;
      b_online := b_online s; b_offline := b_offline s; b_wills := b_wills s; b_subs := b_subs s; b_ret := b_ret s;
-     b_queues := b_queues s; b_unacks := b_unacks s; b_conns := nset c k (b_conns s); b_picks := b_picks s; b_tag := b_tag s; b_auto := b_auto s |}.
+     b_queues := b_queues s; b_unacks := b_unacks s; b_conns := nset c k (b_conns s); b_picks := b_picks s; b_tag := b_tag s; b_auto := b_auto s; b_npick := b_npick s |}.
 
 Definition set_queues (q : list (str * queue)) (s : st) : st :=
   {| b_cfg := b_cfg s; b_hooks := b_hooks s; b_now := b_now s; b_rt := b_rt s; b_sessions := b_sessions s;
      b_online := b_online s; b_offline := b_offline s; b_wills := b_wills s; b_subs := b_subs s; b_ret := b_ret s;
-     b_queues := q; b_unacks := b_unacks s; b_conns := b_conns s; b_picks := b_picks s; b_tag := b_tag s; b_auto := b_auto s |}.
+     b_queues := q; b_unacks := b_unacks s; b_conns := b_conns s; b_picks := b_picks s; b_tag := b_tag s; b_auto := b_auto s; b_npick := b_npick s |}.
 
 Definition set_tables (se : list (str * session)) (on off : list (str * N)) (w : list (str * (msg * N)))
                       (q : list (str * queue)) (u : list (str * unack)) (s : st) : st :=
   {| b_cfg := b_cfg s; b_hooks := b_hooks s; b_now := b_now s; b_rt := b_rt s; b_sessions := se;
      b_online := on; b_offline := off; b_wills := w; b_subs := b_subs s; b_ret := b_ret s;
-     b_queues := q; b_unacks := u; b_conns := b_conns s; b_picks := b_picks s; b_tag := b_tag s; b_auto := b_auto s |}.
+     b_queues := q; b_unacks := u; b_conns := b_conns s; b_picks := b_picks s; b_tag := b_tag s; b_auto := b_auto s; b_npick := b_npick s |}.
 
 Definition set_subs (d : db) (s : st) : st :=
   {| b_cfg := b_cfg s; b_hooks := b_hooks s; b_now := b_now s; b_rt := b_rt s; b_sessions := b_sessions s;
      b_online := b_online s; b_offline := b_offline s; b_wills := b_wills s; b_subs := d; b_ret := b_ret s;
-     b_queues := b_queues s; b_unacks := b_unacks s; b_conns := b_conns s; b_picks := b_picks s; b_tag := b_tag s; b_auto := b_auto s |}.
+     b_queues := b_queues s; b_unacks := b_unacks s; b_conns := b_conns s; b_picks := b_picks s; b_tag := b_tag s; b_auto := b_auto s; b_npick := b_npick s |}.
 
 Definition set_ret (r : rdb) (s : st) : st :=
   {| b_cfg := b_cfg s; b_hooks := b_hooks s; b_now := b_now s; b_rt := b_rt s; b_sessions := b_sessions s;
      b_online := b_online s; b_offline := b_offline s; b_wills := b_wills s; b_subs := b_subs s; b_ret := r;
-     b_queues := b_queues s; b_unacks := b_unacks s; b_conns := b_conns s; b_picks := b_picks s; b_tag := b_tag s; b_auto := b_auto s |}.
+     b_queues := b_queues s; b_unacks := b_unacks s; b_conns := b_conns s; b_picks := b_picks s; b_tag := b_tag s; b_auto := b_auto s; b_npick := b_npick s |}.
 
 Definition set_time (now rt : N) (s : st) : st :=
   {| b_cfg := b_cfg s; b_hooks := b_hooks s; b_now := now; b_rt := rt; b_sessions := b_sessions s;
      b_online := b_online s; b_offline := b_offline s; b_wills := b_wills s; b_subs := b_subs s; b_ret := b_ret s;
-     b_queues := b_queues s; b_unacks := b_unacks s; b_conns := b_conns s; b_picks := b_picks s; b_tag := b_tag s; b_auto := b_auto s |}.
+     b_queues := b_queues s; b_unacks := b_unacks s; b_conns := b_conns s; b_picks := b_picks s; b_tag := b_tag s; b_auto := b_auto s; b_npick := b_npick s |}.
 
 Definition set_picks_tag (p : list nat) (t : N) (s : st) : st :=
   {| b_cfg := b_cfg s; b_hooks := b_hooks s; b_now := b_now s; b_rt := b_rt s; b_sessions := b_sessions s;
      b_online := b_online s; b_offline := b_offline s; b_wills := b_wills s; b_subs := b_subs s; b_ret := b_ret s;
-     b_queues := b_queues s; b_unacks := b_unacks s; b_conns := b_conns s; b_picks := p; b_tag := t; b_auto := b_auto s |}.
+     b_queues := b_queues s; b_unacks := b_unacks s; b_conns := b_conns s; b_picks := p; b_tag := t; b_auto := b_auto s; b_npick := b_npick s |}.
 
 Definition set_unacks (u : list (str * unack)) (s : st) : st :=
   set_tables (b_sessions s) (b_online s) (b_offline s) (b_wills s) (b_queues s) u s.
@@ -182,6 +183,30 @@ Definition drops_of (cid : str) (evs : list qev) : list out :=
                      | EvDropped el r => match e_body el with QPub m => [ODropped cid m r] | QRel _ => [] end
                      | _ => []
                      end) evs.
+
+(* queueNotifier.NotifyDropped: an expired in-flight entry gives its packet id back to the
+   limiter of the connection the session is attached to *)
+Definition release_dropped (cid : str) (evs : list qev) (s : st) : st :=
+  match aget cid (b_online s) with
+  | None => s
+  | Some c =>
+      match nget c (b_conns s) with
+      | None => s
+      | Some k =>
+          let l := fold_left (fun l e => match e with
+                                         | EvDropped el DExpiredInflight => lim_release (e_id el) l
+                                         | _ => l
+                                         end) evs (k_lim k) in
+          upd_conn c {| k_cid := k_cid k; k_v := k_v k; k_phase := k_phase k; k_max_inflight := k_max_inflight k;
+                        k_client_max_packet := k_client_max_packet k; k_client_alias_max := k_client_alias_max k;
+                        k_server_alias_max := k_server_alias_max k; k_recv_max := k_recv_max k; k_keepalive := k_keepalive k;
+                        k_session_expiry := k_session_expiry k; k_retain_avail := k_retain_avail k; k_wildcard := k_wildcard k;
+                        k_subid := k_subid k; k_shared := k_shared k; k_lim := l; k_held := k_held k;
+                        k_alias_out := k_alias_out k; k_alias_in := k_alias_in k; k_alias_in_size := k_alias_in_size k;
+                        k_quota := k_quota k; k_clean_will := k_clean_will k; k_disc_sei := k_disc_sei k;
+                        k_got_disconnect := k_got_disconnect k; k_force_remove := k_force_remove k; k_drained := k_drained k |} s
+      end
+  end.
 
 (* addMsgToQueueLocked *)
 Definition add_to_queue (cid : str) (m : msg) (s_ : sub) (ids : list N) (s : st) : st * list out :=
@@ -204,7 +229,7 @@ Definition add_to_queue (cid : str) (m : msg) (s_ : sub) (ids : list N) (s : st)
         let e := {| e_tag := b_tag s; e_at := now; e_expiry := expiry; e_body := QPub m' |} in
         match q_add now e q with
         | QOk (q', evs) =>
-            (set_picks_tag (b_picks s) (b_tag s + 1) (set_queues (aset cid q' (b_queues s)) s), drops_of cid evs)
+            (release_dropped cid evs (set_picks_tag (b_picks s) (b_tag s + 1) (set_queues (aset cid q' (b_queues s)) s)), drops_of cid evs)
         | _ => (s, [])
         end
   end.
@@ -221,22 +246,25 @@ Fixpoint group_shared (l : list (cid * sub)) (acc : list (str * list (cid * sub)
       group_shared r (aset k (opt_or (aget k acc) [] ++ [(c, s_)]) acc)
   end.
 
-(* onlyonce: per client the subscription with the highest QoS (first one wins ties) and all ids *)
-Fixpoint group_maxqos (l : list (cid * sub)) (acc : list (str * (sub * list N))) : list (str * (sub * list N)) :=
+(* onlyonce: per client all matching subscriptions; the one that is used is the first of
+   highest QoS in (map) iteration order, which is oracle-resolved; all ids are carried *)
+Fixpoint group_by_client (l : list (cid * sub)) (acc : list (str * list sub)) : list (str * list sub) :=
   match l with
   | [] => acc
-  | (c, s_) :: r =>
-      group_maxqos r
-        (match aget c acc with
-         | None => aset c (s_, [s_id s_]) acc
-         | Some (b, ids) => aset c ((if s_qos b <? s_qos s_ then s_ else b), ids ++ [s_id s_]) acc
-         end)
+  | (c, s_) :: r => group_by_client r (aset c (opt_or (aget c acc) [] ++ [s_]) acc)
   end.
+Definition max_qos_of (l : list sub) : N := fold_left (fun a x => if a <? s_qos x then s_qos x else a) l 0.
+
+Definition count_pick (s : st) : st :=
+  {| b_cfg := b_cfg s; b_hooks := b_hooks s; b_now := b_now s; b_rt := b_rt s; b_sessions := b_sessions s;
+     b_online := b_online s; b_offline := b_offline s; b_wills := b_wills s; b_subs := b_subs s; b_ret := b_ret s;
+     b_queues := b_queues s; b_unacks := b_unacks s; b_conns := b_conns s; b_picks := b_picks s; b_tag := b_tag s;
+     b_auto := b_auto s; b_npick := b_npick s + 1 |}.
 
 Definition take_pick (n : nat) (s : st) : nat * st :=
   match b_picks s with
-  | [] => (0%nat, s)
-  | p :: r => ((p mod (Nat.max n 1))%nat, set_picks_tag r (b_tag s) s)
+  | [] => (0%nat, count_pick s)
+  | p :: r => ((p mod (Nat.max n 1))%nat, count_pick (set_picks_tag r (b_tag s) s))
   end.
 
 Definition deliver_opts (topic : str) : iopts :=
@@ -262,7 +290,7 @@ Definition deliver (src : str) (m : msg) (s : st) : st * list out * bool :=
   let '(s2, o2) :=
     fold_left (fun acc g => let '(s0, o0) := acc in
                             let members := snd g in
-                            let '(i, s0') := take_pick (length members) s0 in
+                            let '(i, s0') := match members with [_] => (0%nat, s0) | _ => take_pick (length members) s0 end in
                             match nth_error members i with
                             | Some (c, s_) => let '(s', o') := add_to_queue c m s_ [s_id s_] s0' in (s', o0 ++ o')
                             | None => (s0', o0)
@@ -271,9 +299,17 @@ Definition deliver (src : str) (m : msg) (s : st) : st * list out * bool :=
   let '(s3, o3) :=
     if c_onlyonce (b_cfg s) then
       fold_left (fun acc g => let '(s0, o0) := acc in
-                              let '(s_, ids) := snd g in
-                              let '(s', o') := add_to_queue (fst g) m s_ ids s0 in (s', o0 ++ o'))
-                (group_maxqos plain []) (s2, o2)
+                              let subs := snd g in
+                              let best := filter (fun x => s_qos x =? max_qos_of subs) subs in
+                              let '(i, s0') := match best with
+                                               | [_] => (0%nat, s0)
+                                               | _ => take_pick (length best) s0
+                                               end in
+                              match nth_error best i with
+                              | Some s_ => let '(s', o') := add_to_queue (fst g) m s_ (map s_id subs) s0' in (s', o0 ++ o')
+                              | None => (s0', o0)
+                              end)
+                (group_by_client plain []) (s2, o2)
     else (s2, o2) in
   (s3, o3, matched).
 
@@ -310,7 +346,7 @@ Definition send_will (cid : str) (m : msg) (s : st) : st * list out :=
 (* unregisterClient for the connection on socket c *)
 Definition unregister (c : N) (k : conn) (s : st) : st * list out :=
   let cid := k_cid k in
-  let s := set_tables (b_sessions s) (adel cid (b_online s)) (b_offline s) (b_wills s) (b_queues s) (b_unacks s) s in
+  (* srv.clients still holds the client while the will is delivered: it counts as online for queue_qos0 *)
   match aget cid (b_sessions s) with
   | None => (remove_session cid s, [])
   | Some se =>
@@ -332,7 +368,7 @@ Definition unregister (c : N) (k : conn) (s : st) : st * list out :=
       if store then
         (set_tables (aset cid {| se_will := se_will se; se_will_delay := se_will_delay se;
                                  se_connected_at := se_connected_at se; se_expiry := expiry |} (b_sessions s1))
-                    (b_online s1) (aset cid (b_now s1 + expiry * 1000) (b_offline s1)) (b_wills s1)
+                    (adel cid (b_online s1)) (aset cid (b_now s1 + expiry * 1000) (b_offline s1)) (b_wills s1)
                     (b_queues s1) (b_unacks s1) s1, o1)
       else (remove_session cid s1, o1)
   end.
@@ -421,7 +457,7 @@ Definition dec_str (n : N) : str := dec_digits 20 n [].
 Definition set_auto (a : N) (s : st) : st :=
   {| b_cfg := b_cfg s; b_hooks := b_hooks s; b_now := b_now s; b_rt := b_rt s; b_sessions := b_sessions s;
      b_online := b_online s; b_offline := b_offline s; b_wills := b_wills s; b_subs := b_subs s; b_ret := b_ret s;
-     b_queues := b_queues s; b_unacks := b_unacks s; b_conns := b_conns s; b_picks := b_picks s; b_tag := b_tag s; b_auto := a |}.
+     b_queues := b_queues s; b_unacks := b_unacks s; b_conns := b_conns s; b_picks := b_picks s; b_tag := b_tag s; b_auto := a; b_npick := b_npick s |}.
 
 Definition fresh_conn (cid : str) (v : N) : conn :=
   {| k_cid := cid; k_v := v; k_phase := PhFresh; k_max_inflight := 0; k_client_max_packet := U32MAX;
@@ -836,7 +872,7 @@ Definition replay_retained (c : N) (k : conn) (sb : sub) (s : st) : st * list ou
                    let e := {| e_tag := b_tag s0; e_at := b_now s0; e_expiry := expiry; e_body := QPub m' |} in
                    match q_add (b_now s0) e q with
                    | QOk (q', evs) =>
-                       (set_picks_tag (b_picks s0) (b_tag s0 + 1) (set_queues (aset (k_cid k) q' (b_queues s0)) s0),
+                       (release_dropped (k_cid k) evs (set_picks_tag (b_picks s0) (b_tag s0 + 1) (set_queues (aset (k_cid k) q' (b_queues s0)) s0)),
                         o0 ++ drops_of (k_cid k) evs)
                    | _ => (s0, o0)
                    end
